@@ -316,6 +316,6 @@ def write_replay(prop: str, payload: dict) -> Path:
     return p
 
 def write_evidence(prop: str, ev: dict):
-    d = VERIF / 'evidence'
-    d.mkdir(exist_ok=True)
+    d = Path(os.environ.get('VERIF_EVIDENCE_DIR') or (VERIF / 'evidence'))   # seeded-change runs write elsewhere
+    d.mkdir(parents=True, exist_ok=True)
     (d / f'{prop}.json').write_text(json.dumps(ev, indent=1, default=_json_default))
